@@ -134,6 +134,7 @@ type rpcEnv struct {
 	pending  []pendingReq
 	sentCont map[int64]bool // msg_ids of content-related messages the server sent (alone or in containers)
 	acked    map[int64]bool
+	ackCount map[int64]int // how many times each server msg_id was named in a msgs_ack
 	arrivals map[uint64]int // uid -> times it arrived at the server
 	onReq    func(e *rpcEnv, p pendingReq, in *mtp.Inner) bool // true: handled (do not queue)
 	onAny    func(e *rpcEnv, cn *refserver.Conn, in *mtp.Inner) bool // sees every message first; true: consumed
@@ -147,8 +148,17 @@ type envOpts struct {
 }
 
 func newRPCEnv(c *wk.Ctx, idx int, r *rand.Rand, o envOpts) (*rpcEnv, error) {
-	e := &rpcEnv{c: c, idx: idx, w: newWorld(c, idx), sentCont: map[int64]bool{}, acked: map[int64]bool{}, arrivals: map[uint64]int{}, onReq: o.Handler, onAny: o.Any, newReq: make(chan struct{}, 1024)}
+	e := &rpcEnv{c: c, idx: idx, w: newWorld(c, idx), sentCont: map[int64]bool{}, acked: map[int64]bool{}, ackCount: map[int64]int{}, arrivals: map[uint64]int{}, onReq: o.Handler, onAny: o.Any, newReq: make(chan struct{}, 1024)}
 	e.srv = e.w.server(refserver.HandlerFunc(e.onMessage))
+	// the server's clock: now, 2038+ (message ids with the top bit set, as every server will produce then) or 1971
+	switch idx % 7 {
+	case 3:
+		atomic.StoreInt64(&e.srv.ClockOffset, int64(1)<<31+int64(r.Intn(1<<30))-time.Now().Unix())
+		c.Count("server_clock.2038_or_later", 1)
+	case 5:
+		atomic.StoreInt64(&e.srv.ClockOffset, int64(365*86400+r.Intn(1<<20))-time.Now().Unix())
+		c.Count("server_clock.1971", 1)
+	}
 	e.sess = e.w.sessionPath("s")
 	if !o.Fresh {
 		e.key = rbytes(r, 256)
@@ -215,6 +225,7 @@ func (e *rpcEnv) onMessage(cn *refserver.Conn, in *mtp.Inner) {
 		e.mu.Lock()
 		for _, id := range ids {
 			e.acked[id] = true
+			e.ackCount[id]++
 		}
 		e.recv = append(e.recv, rec)
 		e.mu.Unlock()
